@@ -286,7 +286,8 @@ func (t *Dawg) GobEncode() ([]byte, error) {
 		b = append(b, 0)
 	}
 
-	b = append(b, byte(len(t.linkLabels)))
+	buf = encodeUint64(uint64(len(t.linkLabels)), buf)
+	b = append(b, buf...)
 	for i := range t.linkLabels {
 		b = append(b, t.linkLabels[i])
 		buf = encodeUint64(convertID(t.links[i].id), buf)
@@ -325,7 +326,8 @@ toCheckLoop:
 					b = append(b, 0)
 				}
 
-				b = append(b, byte(len(linkDawg.linkLabels)))
+				buf = encodeUint64(uint64(len(linkDawg.linkLabels)), buf)
+				b = append(b, buf...)
 				for i := range linkDawg.linkLabels {
 					b = append(b, linkDawg.linkLabels[i])
 					buf = encodeUint64(convertID(linkDawg.links[i].id), buf)
